@@ -73,7 +73,7 @@ def verify_unit(args):
             lem = [l for l in cset.lemmas if l.name == key][0]
             v = LemmaVerifier(cset, lem, tr)
             obs = v.obligations()
-            lemmas = [l for l in cset.lemmas if l.index < lem.index]
+            lemmas = [l for l in cset.lemmas if l.index < lem.index and (lem.group is None or l.group != lem.group)]
             serves = []
         else:
             c = cset.fns[key]
